@@ -47,6 +47,43 @@ INFO = {
  "C19_b": ("String() uses one flat children map keyed by itoa(nid)+label without separator", "more than 10000 nodes with an inner node a*10000+bits having an empty label"),
  "C20_a": ("Unmarshal keeps buf[:n:n] and Marshal returns it", "overwrite the input buffer after loading a current-version stream, then Marshal"),
  "C20_b": ("normalizeOpt writes *o.InnerPrefix = true through the caller's pointers", "caller passes explicit InnerPrefix/LeafPrefix pointers together with Complete"),
+ # ---- round 2 (fresh sub-agents, told which ideas round 1 had already used)
+ "C01_c": ("InnerPrefixes.PresenceBM built with capacity EltCnt (elements stored) instead of the inner-node count", "a trie where the last inner nodes have no step/prefix: the bitmap is shorter than the ordinals probed, Get panics"),
+ "C01_d": ("normalizeOpt writes Complete's implication through the caller's *bool (*o.InnerPrefix = true)", "caller shares one *bool between several Opt structs / option combinations built in a loop"),
+ "C02_c": ("newToKeep finds the end of a run of equal values by galloping (offsets 1,2,4,..) and skips records inside", "value runs with a different value at a non-power-of-two offset inside the galloped window (A A B A ...)"),
+ "C02_d": ("branch position of an inner node computed from the kept keys of the subset only", "DedupValue on; a subset whose dropped tail keys diverge earlier than the kept ones"),
+ "C04_c": ("ScanFrom loop condition became len(key) > 0 instead of key != nil", "the empty string is a key (first key of a scan from \"\")"),
+ "C04_d": ("completeness refusal hoisted into NewIter only; ScanFrom/ScanFromTo no longer refuse", "ScanFrom/ScanFromTo on a trie that is not Complete"),
+ "C05_c": ("Unmarshal decodes the body in place into the message the instance already owns (proto merge)", "Unmarshal into a non-fresh instance: repeated fields of the old trie survive"),
+ "C05_d": ("rank/select indexes rebuilt on load, with r64 instead of s32 for the leaf position bitmap", "a loaded trie with variable-width values"),
+ "C06_c": ("the <0.5.12 upgrade steps run only for <=0.5.10", "a 0.5.11 stream"),
+ "C06_d": ("new upgrade step drops LeafPrefixes when the loaded array has no element", "0.5.10/0.5.11 Complete/LeafPrefix stream in which no leaf has a suffix: absent keys accepted, scanning refused"),
+ "C07_c": ("body decoded from the remaining bytes without ReadFull of BodySize", "a stream cut inside the body at a point where the protobuf prefix still parses"),
+ "C07_d": ("st.inner = &Slim{} moved after the header/version early returns", "Unmarshal of a bad header into a loaded instance: the old index stays answerable"),
+ "C08_c": ("order check split into 4096-key chunks verified concurrently; chunk seams never compared", "more than 4096 keys with the only disorder exactly at a chunk boundary"),
+ "C08_d": ("two-kept-keys fast path in the build loop bypasses the step-too-long guard", "InnerPrefix off, a two-key node below a 32-64 KiB branch-free run"),
+ "C10_c": ("GetID no longer returns -1 when the key ends inside a step", "step mode, query shorter than the cursor after a step"),
+ "C10_d": ("Get addresses fixed-size leaves directly at ordinal*FixedSize, ignoring the presence bitmap", "an encoder emitting empty and fixed-size values mixed"),
+ "C11_c": ("TypeEncoder.Decode reuses one bytes.Reader stored in the encoder", "concurrent Get on a trie whose values use a TypeEncoder (race detector, or wrong values on multi-core)"),
+ "C11_d": ("legacy leaf-layout fix-up moved from Unmarshal to the first leaf access", "first reads of a trie loaded from a <0.5.12 stream (writes under readers)"),
+ "C12_c": ("short-node conversion loop visits the leading 257-bit nodes too (range over all inner bitmaps)", "sparse index whose big node keeps <=10 labels below 0x10 equal to a most-used 17-bit bitmap"),
+ "C12_d": ("SlimIndex stores offsets as int32 leaves when all are <= MaxUint32 (should be MaxInt32)", "an offset in [2^31, 2^32) and none above"),
+ "C13_c": ("GetID byte-compare fast path for big nodes with prefix; guard to >= len(key) (should be >)", "prefix mode, a retained key equal to the prefix of a 257-bit node"),
+ "C13_d": ("normalizeOpt as a defaults table: Complete only fills nil fields", "Opt{Complete:true, InnerPrefix:false} and similar explicit combinations"),
+ "C14_c": ("typed getters load 8 bytes with one Uint64 and truncate; builder pads Leaves.Bytes by 7", "a trie loaded from data written before the change, key on one of the last leaves"),
+ "C14_d": ("typed getters share a helper whose not-found test is id <= 0", "a single-key trie (leaf root has id 0)"),
+ "C15_c": ("TypeEncoder size from reflect.Type.Size() (in-memory, padded) for structs", "a struct with mixed-width fields"),
+ "C15_d": ("String16.Encode panics above MaxInt16 (should be MaxUint16)", "a string of 32768..65535 bytes"),
+ "C16_c": ("same change as C15_c seen through array.Array of a padded struct", "struct elements with padding, at least two elements"),
+ "C16_d": ("Base.Init returns InitIndex(indexes) early when elts is empty, before the length check", "len(elts)==0 with len(indexes)>0"),
+ "C17_c": ("step width 1 or 2 bytes chosen from the longest step (FixedSize from data)", "one branch-free run of >=128 bytes anywhere flips every node's step to 2 bytes"),
+ "C17_d": ("InnerPrefixes.PresenceBM built only when some node has a step", "a completely step-free key set K versus P+K"),
+ "C18_c": ("Stat takes KeyCnt from Leaves.EltCnt (non-empty elements)", "variable-width encoder with some empty values"),
+ "C18_d": ("legacy loader treats an empty children array as an empty trie", "a pre-0.5.10 stream of a single-key trie"),
+ "C19_c": ("String() caches decoded labels by a key holding only 4 of the 5 words of a 257-bit bitmap", "two 257-bit nodes differing only in label 0xff"),
+ "C19_d": ("getLabels uses qr.bm != 0 as short-node test and String()/NodeInfo no longer reset the session", "a normal 17-bit node rendered after a short node"),
+ "C20_c": ("newVLenArray keeps a lone non-empty element without copying it", "[][]byte values with the identity encoder encode.Bytes and exactly one stored leaf"),
+ "C20_d": ("NewSlimTrie normalises &opts[0] in place", "options passed by spreading a caller-owned slice (opts...)"),
 }
 
 def props():
